@@ -99,12 +99,18 @@ func stressMain(args []string) {
 	g, _ := strconv.Atoi(args[2])
 	n, _ := strconv.Atoi(args[3])
 	verifhook.SetMode(verifhook.Chaos)
-	p := syncx.NewLimitPool(maxTokens, func() int { return 0 })
+	t := &lpTracker{}
+	p := syncx.NewLimitPool(maxTokens, t.factory)
 	if maxTokens > 1<<30 {
-		// a budget this large cannot be exhausted; the first Gets must simply succeed
+		// a budget this large cannot be exhausted; the first Gets must simply succeed (and return distinct objects)
 		for i := 0; i < g*n; i++ {
-			if _, ok := p.Get(); !ok {
+			o, ok := p.Get()
+			if !ok {
 				fmt.Printf("Get %d failed although maxTokens = %d\n", i+1, maxTokens)
+				return
+			}
+			if msg := t.onGet(o, ok); msg != "" {
+				fmt.Printf("object: %s (Get %d, maxTokens = %d)\n", msg, i+1, maxTokens)
 				return
 			}
 		}
@@ -112,20 +118,34 @@ func stressMain(args []string) {
 		return
 	}
 	var outstanding, high atomic.Int64
+	var objBad atomic.Pointer[string]
 	var wg sync.WaitGroup
 	for i := 0; i < g; i++ {
 		wg.Add(1)
 		go func(i int) {
 			defer wg.Done()
-			held := 0
+			var held []*lpObj
+			put := func() {
+				o := held[len(held)-1]
+				held = held[:len(held)-1]
+				outstanding.Add(-1)
+				t.beforePut(o)
+				p.Put(o)
+			}
 			for j := 0; j < n; j++ {
-				if held > 0 && (j+i)%3 == 0 {
-					outstanding.Add(-1)
-					p.Put(0)
-					held--
+				if len(held) > 0 && (j+i)%3 == 0 {
+					put()
 					continue
 				}
-				if _, ok := p.Get(); ok {
+				o, ok := p.Get()
+				if msg := t.onGet(o, ok); msg != "" {
+					objBad.CompareAndSwap(nil, &msg)
+					if ok && o == nil {
+						o = t.factory() // keep the token accounting going
+						o.state.Store(1)
+					}
+				}
+				if ok {
 					v := outstanding.Add(1)
 					for {
 						h := high.Load()
@@ -133,12 +153,11 @@ func stressMain(args []string) {
 							break
 						}
 					}
-					held++
+					held = append(held, o)
 				}
 			}
-			for ; held > 0; held-- {
-				outstanding.Add(-1)
-				p.Put(0)
+			for len(held) > 0 {
+				put()
 			}
 		}(i)
 	}
@@ -155,9 +174,18 @@ func stressMain(args []string) {
 		fmt.Printf("outstanding high-water %d > maxTokens %d\n", high.Load(), maxTokens)
 		return
 	}
+	if m := objBad.Load(); m != nil {
+		fmt.Printf("object: %s (maxTokens %d, %d goroutines)\n", *m, maxTokens, g)
+		return
+	}
 	succ := 0
 	for i := 0; i < maxTokens+3; i++ {
-		if _, ok := p.Get(); ok {
+		o, ok := p.Get()
+		if msg := t.onGet(o, ok); msg != "" {
+			fmt.Printf("object: %s (after quiescence, maxTokens %d)\n", msg, maxTokens)
+			return
+		}
+		if ok {
 			succ++
 		}
 	}
@@ -165,7 +193,7 @@ func stressMain(args []string) {
 		fmt.Printf("after quiescence %d Gets succeeded, want exactly %d\n", succ, maxTokens)
 		return
 	}
-	fmt.Println("ok")
+	fmt.Printf("ok fresh=%d recycled=%d\n", t.fresh.Load(), t.recycled.Load())
 }
 
 // segkeyStressMain is the SEARCH oracle for SegmentKeysLock under concurrency (not a proof): in chaos mode,
